@@ -369,7 +369,8 @@ Section WithH.
                   r_tsig : option (name * tsig);         (* message.tsig *)
                   r_ctx : option hctx;                   (* message.tsig_ctx *)
                   r_recs : list (Z * Z * Z * nat);       (* (section, type, class, start) of every RR read, reversed *)
-                  r_opt : bool }.                        (* message.opt is set *)
+                  r_opt : bool;                          (* message.opt is set *)
+                  r_origin : option name }.              (* message.origin (from_wire(origin=...)); constant *)
 
   (* OPT.from_wire_parser between pos and endp: option code, option length, option data;
      the model covers options whose data is opaque (GenericOption: get_remaining) *)
@@ -418,7 +419,13 @@ Section WithH.
              (section : Z) (count i : Z) (st : rst) : res rst :=
     let rr_start := r_pos st in
     do np <- get_name w (length w) rr_start;
-    let owner := fst np in
+    let owner := fst np in                          (* absolute_name *)
+    (* name = absolute_name.relativize(origin): only the OPT owner test and messages use it; the
+       keyring lookup, validate and message.tsig take the absolute name *)
+    do nrel <- (match r_origin st with
+                | Some o => NameM.relativize owner o
+                | None => Ok owner
+                end);
     do tp <- get_uint w (length w) (snd np) 2;
     do cp <- get_uint w (length w) (snd tp) 2;
     do lp <- get_uint w (length w) (snd cp) 4;
@@ -428,12 +435,12 @@ Section WithH.
     let recs := (section, rdtype, rdclass, rr_start) :: r_recs st in
     if rdtype =? OPT then
       (* _parse_special_rr_header: ADDITIONAL only, at most one, owner must be the root *)
-      if negb (section =? 3) || r_opt st || negb (NameM.name_eqb owner NameM.root) then Lib eBadEDNS
+      if negb (section =? 3) || r_opt st || negb (NameM.name_eqb nrel NameM.root) then Lib eBadEDNS
       else if Nat.ltb (length w - rdata_start) rdlen then Lib eFormError
       else
         do _ <- wrap_formerror (opt_options w (rdata_start + rdlen) rdata_start (S rdlen));
         Ok {| r_pos := (rdata_start + rdlen)%nat; r_tsig := r_tsig st;
-              r_ctx := r_ctx st; r_recs := recs; r_opt := true |}
+              r_ctx := r_ctx st; r_recs := recs; r_opt := true; r_origin := r_origin st |}
     else if rdtype =? TSIG then
       (* _parse_special_rr_header *)
       if negb (section =? 3) || negb (rdclass =? ANY) || negb (i =? count - 1) then Lib eBadTSIG
@@ -450,12 +457,12 @@ Section WithH.
                       | None => Ok (r_ctx st)
                       end);
           Ok {| r_pos := (rdata_start + rdlen)%nat; r_tsig := Some (owner, rd);
-                r_ctx := ctx'; r_recs := recs; r_opt := r_opt st |}
+                r_ctx := ctx'; r_recs := recs; r_opt := r_opt st; r_origin := r_origin st |}
     else
       (* any other type: the model covers types whose rdata is opaque (get_remaining) *)
       if Nat.ltb (length w - rdata_start) rdlen then Lib eFormError
       else Ok {| r_pos := (rdata_start + rdlen)%nat; r_tsig := r_tsig st;
-                 r_ctx := r_ctx st; r_recs := recs; r_opt := r_opt st |}.
+                 r_ctx := r_ctx st; r_recs := recs; r_opt := r_opt st; r_origin := r_origin st |}.
 
   Fixpoint get_section (w : bytes) (kr : keyring) (rmac : bytes) (now : Z) (multi : bool)
            (section : Z) (count : Z) (rem : nat) (st : rst) : res rst :=
@@ -471,8 +478,8 @@ Section WithH.
 
   (* _WireReader.read (question_only, ignore_trailing, continue_on_error all False;
      from_wire(wire, keyring, request_mac, tsig_ctx, multi), clock = now) *)
-  Definition read (w : bytes) (kr : keyring) (rmac : bytes) (ctx : option hctx) (multi : bool)
-             (now : Z) : res rmsg :=
+  Definition read_gen (origin : option name) (w : bytes) (kr : keyring) (rmac : bytes)
+             (ctx : option hctx) (multi : bool) (now : Z) : res rmsg :=
     if Nat.ltb (length w) 12 then Lib eShortHeader
     else
       do fl <- get_uint w (length w) 2 2;
@@ -483,7 +490,8 @@ Section WithH.
       if (fst fl / 2048) mod 16 =? 5 then Lib eUnsupported      (* UPDATE messages: not modelled *)
       else
         do p <- get_question w (Z.to_nat (fst qd)) 12;
-        let st0 := {| r_pos := p; r_tsig := None; r_ctx := ctx; r_recs := []; r_opt := false |} in
+        let st0 := {| r_pos := p; r_tsig := None; r_ctx := ctx; r_recs := []; r_opt := false;
+                      r_origin := origin |} in
         do st1 <- get_section w kr rmac now multi 1 (fst an) (Z.to_nat (fst an)) st0;
         do st2 <- get_section w kr rmac now multi 2 (fst au) (Z.to_nat (fst au)) st1;
         do st3 <- get_section w kr rmac now multi 3 (fst ad) (Z.to_nat (fst ad)) st2;
@@ -496,18 +504,23 @@ Section WithH.
                       end in
           Ok {| m_had_tsig := had; m_tsig := r_tsig st3; m_ctx := ctx'; m_recs := rev (r_recs st3) |}.
 
+  (* from_wire without an origin *)
+  Definition read := read_gen None.
+
   (* a multi-message exchange as the transfer code drives it (dns.query.inbound_xfr /
      dns.xfr users): every envelope goes through from_wire(..., tsig_ctx=previous, multi=True) *)
-  Fixpoint read_stream (ws : list bytes) (kr : keyring) (rmac : bytes) (ctx : option hctx)
-           (now : Z) : list (res rmsg) :=
+  Fixpoint read_stream_gen (origin : option name) (ws : list bytes) (kr : keyring) (rmac : bytes)
+           (ctx : option hctx) (now : Z) : list (res rmsg) :=
     match ws with
     | [] => []
     | w :: r =>
-        match read w kr rmac ctx true now with
-        | Ok m => Ok m :: read_stream r kr rmac (m_ctx m) now
+        match read_gen origin w kr rmac ctx true now with
+        | Ok m => Ok m :: read_stream_gen origin r kr rmac (m_ctx m) now
         | e => [e]
         end
     end.
+
+  Definition read_stream := read_stream_gen None.
 
   (* the sending side of the same exchange: Message.to_wire(multi=True, tsig_ctx=previous) for
      signed envelopes, ctx.update(wire) for the ones sent without TSIG *)
@@ -628,6 +641,13 @@ Fixpoint dict_of_obs (l : list obs) : option (list (name * (key + bytes))) :=
   | _ => None
   end.
 
+Definition oname_of_obs (o : obs) : option (option name) :=
+  match o with
+  | N => Some None
+  | L l => option_map Some (name_of_obs l)
+  | _ => None
+  end.
+
 Definition keyring_of_obs (o : obs) : option keyring :=
   match o with
   | N => Some KR_None
@@ -635,6 +655,9 @@ Definition keyring_of_obs (o : obs) : option keyring :=
   | I 0 => Some KR_False
   | L [I 1; k] => match key_of_obs k with Some k => Some (KR_Key k) | None => None end
   | L [I 2; L ents] => option_map KR_Dict (dict_of_obs ents)
+  (* a callable  lambda message, name: d.get(name)  over a dict of Key objects: the reader calls
+     it with the absolute owner name, i.e. the same lookup *)
+  | L [I 3; L ents] => option_map KR_Dict (dict_of_obs ents)
   | _ => None
   end.
 
@@ -719,18 +742,18 @@ Definition run (c : obs) : obs :=
       | _, _, _, _, _ => E eBadCase
       end
   (* 6: dns.message.from_wire of one message *)
-  | L [I 6; B w; kr; B rmac; ctx; I multi; I now; L tab] =>
-      match keyring_of_obs kr, ctx_of_obs ctx, htable_of_obs tab with
-      | Some kr, Some ctx, Some t =>
-          obs_of_res (obs_of_rmsg t) (do ctx <- ctx; read (H_tab t) w kr rmac ctx (multi =? 1) now)
-      | _, _, _ => E eBadCase
+  | L [I 6; B w; kr; B rmac; ctx; I multi; I now; L tab; origin] =>
+      match keyring_of_obs kr, ctx_of_obs ctx, htable_of_obs tab, oname_of_obs origin with
+      | Some kr, Some ctx, Some t, Some origin =>
+          obs_of_res (obs_of_rmsg t) (do ctx <- ctx; read_gen (H_tab t) origin w kr rmac ctx (multi =? 1) now)
+      | _, _, _, _ => E eBadCase
       end
   (* 7: a multi-message exchange, receiving side *)
-  | L [I 7; L ws; kr; B rmac; I now; L tab] =>
-      match wires_of_obs ws, keyring_of_obs kr, htable_of_obs tab with
-      | Some ws, Some kr, Some t =>
-          L (map (obs_of_res (obs_of_rmsg t)) (read_stream (H_tab t) ws kr rmac None now))
-      | _, _, _ => E eBadCase
+  | L [I 7; L ws; kr; B rmac; I now; L tab; origin] =>
+      match wires_of_obs ws, keyring_of_obs kr, htable_of_obs tab, oname_of_obs origin with
+      | Some ws, Some kr, Some t, Some origin =>
+          L (map (obs_of_res (obs_of_rmsg t)) (read_stream_gen (H_tab t) origin ws kr rmac None now))
+      | _, _, _, _ => E eBadCase
       end
   (* 8: a multi-message exchange, sending side *)
   | L [I 8; L es; k; B rmac; L tab] =>
